@@ -101,3 +101,79 @@ theorem contains_insert {α} (m : AMap α) (k : String) (v : α) (n : String) :
     simp [h, this]
 
 end AMap
+
+namespace AMap
+
+theorem contains_iff_mem_keys {α} (m : AMap α) (k : String) : m.contains k = true ↔ k ∈ m.keys := by
+  unfold contains keys
+  rw [List.any_eq_true, List.mem_map]
+  constructor
+  · rintro ⟨p, hp, he⟩; exact ⟨p, hp, by simpa using he⟩
+  · rintro ⟨p, hp, he⟩; exact ⟨p, hp, by simpa using he⟩
+
+theorem keys_insert {α} (m : AMap α) (k : String) (v : α) :
+    (m.insert k v).keys = if m.contains k then m.keys else m.keys ++ [k] := by
+  unfold insert keys
+  by_cases hc : m.contains k = true
+  · simp only [hc, if_true, List.map_map]
+    apply List.map_congr_left
+    intro p _
+    simp only [Function.comp]
+    by_cases h : (p.1 == k) = true
+    · simp only [h, if_true]; exact (by simpa using h : p.1 = k).symm
+    · simp only [h]; rfl
+  · simp only [hc]
+    simp
+
+theorem keys_insert_nodup {α} (m : AMap α) (k : String) (v : α) (h : m.keys.Nodup) : (m.insert k v).keys.Nodup := by
+  rw [keys_insert]
+  by_cases hc : m.contains k = true
+  · simp only [hc, if_true]; exact h
+  · have hc' : m.contains k = false := by simpa using hc
+    simp only [hc', Bool.false_eq_true, if_false]
+    have hk : k ∉ m.keys := fun hm => hc ((contains_iff_mem_keys m k).mpr hm)
+    rw [List.nodup_append]
+    refine ⟨h, by simp, ?_⟩
+    intro a ha b hb
+    simp at hb; subst hb
+    intro e; subst e; exact hk ha
+
+theorem mem_keys_insert {α} (m : AMap α) (k : String) (v : α) (n : String) :
+    n ∈ (m.insert k v).keys ↔ n ∈ m.keys ∨ n = k := by
+  rw [← contains_iff_mem_keys, contains_insert, ← contains_iff_mem_keys]
+  simp
+
+theorem mem_of_get? {α} (m : AMap α) (k : String) (v : α) (h : m.get? k = some v) : (k, v) ∈ m := by
+  unfold get? at h
+  induction m with
+  | nil => simp [List.lookup] at h
+  | cons p rest ih =>
+    obtain ⟨a, b⟩ := p
+    simp only [List.lookup] at h
+    by_cases hk : k = a
+    · subst hk; simp at h; subst h; exact List.mem_cons_self
+    · have : (k == a) = false := by simpa using hk
+      simp only [this] at h
+      exact List.mem_cons_of_mem _ (ih h)
+
+theorem get?_of_mem_nodup {α} (m : AMap α) (k : String) (v : α) (hn : m.keys.Nodup) (h : (k, v) ∈ m) : m.get? k = some v := by
+  unfold get?
+  induction m with
+  | nil => simp at h
+  | cons p rest ih =>
+    obtain ⟨a, b⟩ := p
+    simp only [keys, List.map_cons, List.nodup_cons] at hn
+    simp only [List.lookup]
+    rcases List.mem_cons.mp h with h1 | h1
+    · cases h1; simp
+    · have hk : k ≠ a := by
+        intro e; subst e
+        exact hn.1 (List.mem_map.mpr ⟨(k, v), h1, rfl⟩)
+      have : (k == a) = false := by simpa using hk
+      simp only [this]
+      exact ih hn.2 h1
+
+theorem get?_isSome_iff_contains {α} (m : AMap α) (k : String) : (m.get? k).isSome = m.contains k := by
+  rw [contains_eq_isSome]; rfl
+
+end AMap
